@@ -1,4 +1,4 @@
 (* GenTie: aggregate of the per-property files.  The theorems live in Props/GenTieC07.v and
-   Props/GenTieC17.v (split so that a kernel of one property that no longer translates or refines
+   Props/GenTieC17.v, Props/GenTieC18.v (split so that a kernel of one property that no longer translates or refines
    does not break the obligations of the other); this file builds iff all of them do. *)
-From SV Require Export Props.GenTieC07 Props.GenTieC17.
+From SV Require Export Props.GenTieC07 Props.GenTieC17 Props.GenTieC18.
